@@ -26,6 +26,10 @@ CHECKS = {
   technique='property-based testing (Hypothesis) against an independent reference of the layered plane-parallel emission integral (own Planck function, own Gauss-Legendre mapping, modelled clamp) plus the isothermal blackbody identity and hot/cold bounds as metamorphic consequences',
   text='Generated worlds with EmissionModel/DirectImageModel (1-8 Gauss points, isothermal/monotone/inverted profiles, all opacity magnitudes, CIA, Rayleigh) are compared with a reference integral on spectrum, per-angle intensities, quadrature nodes and layer transmittance differences; independently the isothermal identity and coldest/hottest blackbody bounds are asserted; exploration level.',
   note='Cross-section mode here (k-table mode in C20 against the same oracle); clouds excluded from emission worlds; direct-image constant 1/2 adopted as convention; rtol 1e-8.'),
+ 'C03': dict(
+  technique='property-based testing (Hypothesis) with differential/metamorphic oracles: product rule between model(), model_contrib() and model_full_contrib(), insertion-order permutation, zero-abundance removal, per-component opacity vs table x mixing ratio reference, probe histories (fresh model, sub-grid, parameter change)',
+  text='Generated transmission worlds with a drawn subset and insertion order of six built-in contributions; transmittances of the whole, of each contribution and of each component are compared through the product rule (exact off the cut-off, one-sided on saturated layers), spectra of permuted insertion orders and of worlds with/without a zero-abundance species are compared, component opacities are compared with the reference; exploration level.',
+  note='H- not generated; Rayleigh/Mie components only checked for proportionality; one open known finding (two hazes sharing the name Mie).'),
 }
 
 NOT_APPLICABLE = {}
